@@ -1,5 +1,7 @@
 import Proofs.SeqInv
 import Proofs.Merkle
+import Proofs.SeqSoloPub
+import Proofs.SeqDemo
 /-! C01 — Checkpoint history of a log is append-only.
 
 The model (Model/Sequencer.lean) is a transition system at storage/lock-operation granularity whose
@@ -55,5 +57,36 @@ theorem C01_clock_guard (s s' : Sys) (i v : Nat) (rd : Round)
   simp only [step, hp, hpc, hv, if_true] at h
   injection h with h; subst h
   simp [Sys.setInst, upd]
+
+/-- Publication order (C01's own quantifier: one process dying and restarting, any faults, crashes and
+    clock behaviour — `ReachableSolo`: at most one instance is not down at any moment): the sequence of
+    checkpoints that became publicly readable is append-only too — every published checkpoint extends
+    every earlier published one and tree-head timestamps never go back. With two overlapping
+    instances this statement is FALSE of the model and of the code (finding F3, witnessed by
+    `C06_pub_order_not_monotone_witness`). -/
+theorem C01_pub_monotone_solo {s : Sys} (r : ReachableSolo s) (ht : s.tampered = false) :
+    s.pubHist.Pairwise (fun newer older => older.leaves <+: newer.leaves ∧ older.time ≤ newer.time) :=
+  pubMono_reachable r ht
+
+/-- Without tampering (any number of instances) the public checkpoint object is exactly the last
+    effective checkpoint upload: nothing else ever writes or removes it. -/
+theorem C01_ckpt_object_is_last_publication {s : Sys} (r : Reachable s) (ht : s.tampered = false) :
+    s.store .ckpt = s.pubHist.head?.map (fun c => (Obj.ck c, false)) :=
+  ckHead_reachable r ht
+
+/-- only instance 0 acts in the demo run -/
+theorem demo_inst : ∀ e ∈ Seq.Demo.demo, e.inst = some 0 := by
+  have h : Seq.Demo.demo.all (fun e => e.inst == some 0) = true := by decide
+  intro e he
+  have := List.all_eq_true.1 h e he
+  simpa using this
+
+/-- non-vacuity: a single-process run with three publications (creation, a round with tiles, an empty round) -/
+example : ∃ s, ReachableSolo s ∧ s.tampered = false ∧ s.pubHist.length = 3 := by
+  obtain ⟨s, h, _, hp, _⟩ := Seq.Demo.demo_runs
+  obtain ⟨s2, h2, ht, _⟩ := Seq.Demo.demo_untampered
+  have : s2 = s := by rw [h] at h2; injection h2 with h2; exact h2.symm
+  subst this
+  exact ⟨s2, (ReachableSolo.init 0).run_inst (i := 0) (fun _ _ => rfl) demo_inst h, ht, by rw [hp]; rfl⟩
 
 end C01
